@@ -298,6 +298,84 @@ def s_encode(vc):
 
 
 # ---------------------------------------------------------------------------------------------
+# decode_deflate relative to a zlib contract: accepts every zlib stream and every raw deflate stream
+
+def _zlib_ok(x, wbits):
+    import zlib
+    try:
+        return True, zlib.decompress(_b(x), wbits)
+    except zlib.error:
+        return False, b""
+
+
+def _register_zlib_oracles():
+    from pyvc import lib
+    lib.UF_ORACLES["c31_is_zlib"] = lambda x: _zlib_ok(x, 15)[0]
+    lib.UF_ORACLES["c31_zlib_val"] = lambda x: _zlib_ok(x, 15)[1]
+    lib.UF_ORACLES["c31_is_raw"] = lambda x: _zlib_ok(x, -15)[0]
+    lib.UF_ORACLES["c31_raw_val"] = lambda x: _zlib_ok(x, -15)[1]
+
+
+_register_zlib_oracles()
+
+
+def _z(vc, name, x):
+    """zlib.decompress as a contract: (accepted?, value) for the zlib format (wbits 15) and for raw deflate (wbits -15)"""
+    if vc.mode == "native":
+        ok, val = _zlib_ok(x, 15 if "zlib" in name else -15)
+        return ok if name.startswith("c31_is") else val
+    import z3
+    from pyvc import lib
+    S = z3.StringSort()
+    if name.startswith("c31_is"):
+        return SBool(lib.uf(name, S, z3.BoolSort())(x.t))
+    return SBytes(lib.uf(name, S, S)(x.t))
+
+
+def deflate_candidates():
+    import zlib
+    out = []
+    for body in (b"", b"abc", b"hello hello hello hello"):
+        for level in (0, 1, 3, 6, 9):
+            for wbits in (15, 12, 9, -15):
+                c = zlib.compressobj(level, zlib.DEFLATED, wbits)
+                out.append({"x": c.compress(body) + c.flush()})
+    out += [{"x": b"\x00garbage"}, {"x": b"x"}, {"x": b"\x78\x9c"}]
+    return out
+
+
+@scenario("decode_deflate", functions=[ENC + ":decode_deflate"], candidates=deflate_candidates)
+def s_decode_deflate(vc):
+    import zlib
+    x = vc.sym_bytes("x")
+    if vc.mode == "sym":
+        from pyvc import lib
+
+        def decompress(v, data, wbits=15, *a, **k):
+            w = wbits.concrete() if hasattr(wbits, "concrete") else wbits
+            kind = "zlib" if w == 15 else "raw" if w == -15 else None
+            if kind is None:
+                raise Unsupported(f"zlib.decompress with wbits={w}: not part of the contract")
+            if v.branch(_z(v, f"c31_is_{kind}", data)):
+                r = _z(v, f"c31_{kind}_val", data)
+                v.assume(SBool(lib.bytes_range(r.t)))
+                return r
+            v.raise_(zlib.error, "invalid stream")
+
+        vc.summary("zlib:decompress", decompress)
+    out = vc.call(ENC + ":decode_deflate", x)
+    if vc.branch(len_(x) == 0):
+        vc.ensure("empty.decodes_to_empty", out.ok and vc.eq(out.result, b""))
+        return
+    if vc.branch(_z(vc, "c31_is_zlib", x)):
+        vc.ensure("accepts_every_zlib_stream", And(out.ok, vc.eq(out.result, _z(vc, "c31_zlib_val", x)) if out.ok else False))
+    elif vc.branch(_z(vc, "c31_is_raw", x)):
+        vc.ensure("accepts_every_raw_deflate_stream", And(out.ok, vc.eq(out.result, _z(vc, "c31_raw_val", x)) if out.ok else False))
+    else:
+        vc.ensure("neither.raises_the_codecs_error", (not out.ok) and issubclass(out.raised_type(), zlib.error))
+
+
+# ---------------------------------------------------------------------------------------------
 # Message.set_content / get_content (http.py) relative to the contracts of encode / decode
 
 from props.httpstream import mk_response, mk_headers
@@ -604,6 +682,22 @@ def bounded(tier, seed):
                 if rb != two[i]:
                     empty_hit = two[i] == b"" and res[1] == b""
                     b.fail("encoding.encode.empty_body_cache_hit" if empty_hit else "encoding.encode.independent_decoder", inp, f"{c}: {_short(('ok', res[1]))} -> {rb!r:.80}")
+    # deflate / gzip bodies written by an independent encoder at every level and several window sizes (zlib format, raw deflate)
+    for bi, body in enumerate(bodies):
+        for level in range(0, 10):
+            for wbits in (15, 14, 12, 9, -15, -12, 31, 25):
+                co = zlib.compressobj(level, zlib.DEFLATED, wbits)
+                stream = co.compress(body) + co.flush()
+                codings = ("gzip",) if wbits > 15 else ("deflate", "deflateraw", "Deflate") + (("gzip",) if wbits > 0 else ())
+                for c in codings:
+                    reset()
+                    b.case(("foreign", bi, level, wbits, c))
+                    try:
+                        got = E.decode(stream, c)
+                    except Exception as e:
+                        got = repr(e)
+                    if got != body:
+                        b.fail("encoding.decode.independent_encoder_stream", {"body": bi, "level": level, "wbits": wbits, "coding": c, "stream_head": stream[:4].hex()}, f"{got!r:.80}")
     # Message level, after each single-call prefix (incl. none)
     for prefix in [None] + ops:
         for c in ["gzip", "deflate", "br", "zstd", "identity", "GZip", "x-unknown", "utf-8"]:
